@@ -68,14 +68,41 @@ UNITS = ["ch", "em", "ex", "rem", "px", "cm", "mm", "in", "pc", "pt"]
 LENGTHS = ["1", "10", "0.5", ".5", "12.25"]
 
 
+# characters Python's \s matches that are NOT CSS white space (CSS: space, tab, CR, LF only)
+NOT_CSS_WS = ["\u00a0", "\u2003", "\u3000", "\u202f", "\f", "\v"]
+
+
 def gen_css(rng):
     """('text', css text, info); info = ('good', {prop: unit}) | ('bad',)"""
     specs = [(rng.choice(PROPS[:3] if rng.random() < 0.7 else PROPS), rng.choice(LENGTHS),
               rng.choice(UNITS[:3] if rng.random() < 0.7 else UNITS)) for _ in range(rng.randint(1, 3))]
     ws = lambda: rng.choice(["", " ", "  "])  # noqa: E731
-    parts = [p + ws() + ":" + ws() + ln + u for p, ln, u in specs]
     r = rng.random()
-    if r < 0.6:
+    if r < 0.15:
+        # valid EXCEPT for one foreign white-space character: next to a colon, next to a separating
+        # semicolon, or after the last declaration -- not a CSS size spec
+        bad = rng.choice(NOT_CSS_WS)
+        where = rng.choice(["colon-before", "colon-after", "sep-before", "sep-after", "end", "end-semi"])
+        if where.startswith("sep") and len(specs) < 2:
+            where = rng.choice(["colon-before", "colon-after", "end", "end-semi"])
+        k = rng.randrange(len(specs))                   # which declaration / separator
+        parts = []
+        for i, (p, ln, u) in enumerate(specs):
+            a = (bad if where == "colon-before" and i == k else "") + ws()
+            b = ws() + (bad if where == "colon-after" and i == k else "")
+            parts.append(p + a + ":" + b + ln + u)
+        ksep = rng.randrange(1, len(specs)) if len(specs) > 1 else 0
+        text = parts[0]
+        for i, part in enumerate(parts[1:], 1):
+            text += ws() + (bad if where == "sep-before" and i == ksep else "") + ";" + \
+                (bad if where == "sep-after" and i == ksep else "") + ws() + part
+        if where == "end":
+            text += bad
+        elif where == "end-semi":
+            text += ws() + ";" + bad
+        return ("text", text, ("bad",))
+    parts = [p + ws() + ":" + ws() + ln + u for p, ln, u in specs]
+    if r < 0.65:
         text = parts[0]
         for p in parts[1:]:
             text += ws() + ";" + ws() + p
@@ -85,17 +112,17 @@ def gen_css(rng):
         for p, _, u in specs:
             m[p] = u
         return ("text", text, ("good", m))
-    if r < 0.7 and len(parts) > 1:                     # a separator without the semicolon
+    if r < 0.73 and len(parts) > 1:                     # a separator without the semicolon
         k = rng.randrange(1, len(parts))
         text = parts[0]
         for i, p in enumerate(parts[1:], 1):
             text += (" " if i == k else "; ") + p
         return ("text", text, ("bad",))
-    if r < 0.85:                                       # foreign content somewhere
+    if r < 0.87:                                       # foreign content somewhere
         k = rng.randint(0, len(parts))
         items = parts[:k] + [rng.choice(["foo", "width", "10px", "color: red", "width: 10"])] + parts[k:]
         return ("text", "; ".join(items), ("bad",))
-    if r < 0.93:                                       # unknown unit / glued garbage
+    if r < 0.94:                                       # unknown unit / glued garbage
         return ("text", parts[0] + rng.choice(["x", "q", "%"]), ("bad",))
     return ("text", rng.choice(["auto", "none", "10", "width", "wide: 1px"]), ("bad",))
 
@@ -765,14 +792,17 @@ def run_pairs(chk, model, suite, pairs, locales_per_pair, oracle=True):
 
 # -------------------------------------------------------------------- CSS ---
 CSS_TOKENS = ["width", "height", "min-", "max-", ":", ";", " ", "\t", "\n", "\r", "1", "10", ".5", "1.",
-              "px", "em", "rem", "ch", "x", "foo", "�"]
+              "px", "em", "rem", "ch", "x", "foo", "\ufffd",
+              "\u00a0", "\u2003", "\u3000", "\u202f", "\f", "\v", "\x1f", "\x85"]
 
 
 def css_strings(chk, rng):
     out = ["", " ", ";", "width:1px", "width: 1px;", " width : 1px ; height:2em ", "width:1px height:2em",
            ";width:1px", "width:1px;;height:1em", "width:1px;foo;height:1em", "foo", "width:1pxx",
            "min-width:.5rem;max-height:10ch", "width:1px;width:2em", "widthwidth:1px", "width:1.px",
-           "width:1px\n", "width:1px\n\n", "\nwidth:1px", "width:1px;\n"]
+           "width:1px\n", "width:1px\n\n", "\nwidth:1px", "width:1px;\n",
+           "width:\u00a030em", "width\u2003: 30em", "width: 30em;\u3000", "width: 30em\u202f",
+           "width: 1px\f; height: 2em", "width: 1px;\vheight: 2em"]
     for _ in range(chk.n(1500, 15000)):
         if rng.random() < 0.5:
             out.append(gen_css(rng)[1])
@@ -807,6 +837,14 @@ def run_css(chk, model):
             chk.fail("css-good-rejected", {"text": t[1]}, {"map": m, "errors": e})
         if t[2][0] == "bad" and m and not e:
             chk.fail("css-bad-accepted", {"text": t[1]}, {"map": m})
+    for bad in NOT_CSS_WS:
+        for text in ("width:" + bad + "30em", "width" + bad + ": 30em", "width: 30em;" + bad,
+                     "width: 30em" + bad, "width: 1px" + bad + "; height: 2em",
+                     "width: 1px;" + bad + "height: 2em"):
+            m, e = o.parse_css_spec(text)
+            chk.count(("css-ws", text))
+            if m and not e:
+                chk.fail("css-bad-accepted", {"text": text}, {"map": m})
     if model:
         chk.correspond("CSS-parse", strs, impl, model.call(reqs))
     pairs = [(rng.choice(strs), rng.choice(strs)) for _ in range(chk.n(1500, 15000))]
@@ -906,6 +944,11 @@ def e2e_corners():
         E([P(dsel)], [("title", [T("1")]), ("title", [P(sel)])], term=True),
     ]
     pairs = [(e, copy.deepcopy(e)) for e in same]
+    okcss = ("text", "width: 30em", ("good", {"width": "em"}))
+    pairs.append((E([T("v")], [("style", [okcss])]),
+                  E([T("v")], [("style", [("text", "width:\u00a030em", ("bad",))])])))
+    pairs.append((E([T("v")], [("style", [okcss])]),
+                  E([T("v")], [("style", [("text", "width: 30em;\u3000", ("bad",))])])))
     pairs.append((E([T("v")], [("title", [T("t")])]), E(None, [("label", [P(("msg", "foo", None))])])))
     pairs.append((E([P(("msg", "foo", None))]), E([P(("msg", "bar", None)), T("\ufffd")])))
     return pairs
@@ -1082,6 +1125,11 @@ def edge_pairs():
         (msg([T("a")], [("style", [T("x"), P(("var", "n"))])]), msg([T("a")], [("style", [good2])])),
         (msg([T("a")], [("style", [good])]), msg([T("a")], [("style", [T("x"), P(("var", "n"))])])),
         (msg([T("a")], [("style", [T("auto")])]), msg([T("a")], [("style", [T("auto")])])),
+        (msg([T("a")], [("style", [good2])]), msg([T("a")], [("style", [("text", "width:\u00a030em", ("bad",))])])),
+        (msg([T("a")], [("style", [good2])]), msg([T("a")], [("style", [("text", "width: 30em;\u3000", ("bad",))])])),
+        (msg([T("a")], [("style", [good])]),
+         msg([T("a")], [("style", [("text", "width: 10px;\u2003height: 2em", ("bad",))])])),
+        (msg([T("a")], [("style", [good2])]), msg([T("a")], [("style", [("text", "width\f: 3em", ("bad",))])])),
         (msg([T("a")], [("style", [("text", "width: 10; width:  1ex", ("bad",))])]),
          msg([T("a")], [("style", [("text", "width: 2ex", ("good", {"width": "ex"}))])])),
         (msg([T("a")], [("style", [("text", "height  :  0.5chx", ("bad",))])]),
